@@ -383,7 +383,9 @@ def make_item(p, a, r, gen_children=None):
         s = rand_regex(r)
         if r.random() < 0.25 and (p.obj, key) in ISTRING_KEYS:
             # the other case-insensitive form: a quoted string followed by the i flag - stored with its own quotes and the flag
-            s = r.choice(['"aitkin"i', "'x y'i", '"Ünï cödé"i', "'(paren'i", '"a/b"i'])
+            s = r.choice(['"aitkin"i', "'x y'i", '"Ünï cödé"i', "'(paren'i", '"a/b"i',
+                          # the other quote character, and an escaped quote of its own kind, inside the literal
+                          '"it\'s"i', "'say \"x\"'i", '"say \\"hi\\""i', "'it\\'s'i", '"a\\"b"i'])
             return Item("attr", key, shape="istring", toks=[Tok("raw", s)], value=s)
         return Item("attr", key, shape="regex", toks=[Tok("raw", s)], value=s)
     if k == "hexcolor":
@@ -523,6 +525,7 @@ class GenOpts:
         self.valid = kw.get("valid", False)  # supply required keywords, no duplicates
         self.gated = kw.get("gated", set())
         self.skip_keys = kw.get("skip_keys", set())
+        self.dup_blocks = kw.get("dup_blocks", 0.0)  # probability of giving a key-value block twice in one object
         self.symbol_files = kw.get("symbol_files", True)  # now and then a stand-alone symbol file (SYMBOLSET root)
 
 
@@ -572,6 +575,8 @@ def gen_node(r, type_, opts, depth=1, budget=None):
                 rep = r.choice([0, 0, 1, 2])
             elif not opts.valid and r.random() < opts.dup and it.kind in ("attr",):
                 rep = 1
+            elif not opts.valid and it.kind == "kv" and opts.dup_blocks and r.random() < opts.dup_blocks:
+                rep = 1  # the same key-value block (METADATA ...) given twice in one object: the later one replaces the earlier
             for _ in range(rep):
                 items.append(make_item(p, a if it.kind != "attr" else r.choice(alts), r))
     r.shuffle(items)
